@@ -50,6 +50,10 @@ PoolSets ==
       [] Family = "C02two" -> [i \in 1 .. 4 |-> PoolC02two({SetToSeq({"child", "descendant", "following-sibling", "ancestor"})[i]}, {NTAny},
                                 Atoms1({"child", "ancestor", "following", "preceding"}, {NTName("a")}))]
       [] Family = "C02paren" -> <<PoolC02paren(FlatPaths, Atoms1({"child", "ancestor", "following", "preceding-sibling", "parent"}, TestsA))>>
+      [] Family = "C02paren2" -> <<PoolC02paren2({Path(TRUE, <<DosNode, Step("child", NTAny, <<>>)>>), Rel1("child", NTAny), Rel1("descendant", NTName("a"))},
+                                                {Rel1("child", NTAny), Call("not", <<Rel1("child", NTName("a"))>>), Bin("=", SelfDot, Lit("1")),
+                                                 Rel1("following-sibling", NTAny), Rel1("ancestor", NTName("a")), Bin("!=", SelfDot, Lit("")),
+                                                 Bin("=", Call("local-name", <<>>), Lit("a"))})>>
       [] Family = "C03a"  -> <<PoolC03a(TestsAB, 3)>>
       [] Family = "C03b"  -> <<PoolC03b(TestsA, 2, {Rel1("child", NTAny), Call("not", <<Rel1("child", NTAny)>>),
                                                     Bin("=", SelfDot, Lit("1")), Rel1("following-sibling", NTName("a")),
